@@ -132,6 +132,15 @@ Theorem C17_finalized :
 Proof. exact finalized_refuses. Qed.
 Print Assumptions C17_finalized.
 
+(* ... and stays refused after any further accepted calls (whitelists, computed values, finalize,
+   set_default_parameters): finalisation is one-way *)
+Theorem C17_finalized_forever :
+  forall ops m k m' o,
+    m_finalized m = true -> m_orig m <> [] -> apply_ops m ops k = (m', None) ->
+    changes_definition o = true -> rejected (apply_op m' o).
+Proof. exact finalized_refuses_forever. Qed.
+Print Assumptions C17_finalized_forever.
+
 (* non-vacuity: valid programs are accepted (the example builds), and a second birth flow on it is refused *)
 Example C17_nonvacuous :
   ex_model = Some ex_m /\ has_birth_flow ex_m = true
